@@ -14,7 +14,7 @@ import torch.nn.functional as F
 
 from deepali.core import functional as U
 from deepali.core.grid import Axes, Grid
-from deepali.core.linalg import as_homogeneous_matrix
+from deepali.core.linalg import as_homogeneous_matrix, hmm
 from deepali.core.typing import Device
 from deepali.data.flow import FlowFields
 from deepali.modules import DeviceProperty
@@ -320,6 +320,12 @@ class SpatialTransform(DeviceProperty, Module, metaclass=ABCMeta):
         # - (N, D, D + 1): Affine transformation, including translation.
         if data.ndim == 3:
             assert self.linear
+            if grid != self.grid() or grid.align_corners() != self.align_corners():
+                # express linear map with respect to the normalized coordinates of the given grid
+                axes = Axes.from_grid(grid)
+                pre = grid.transform(axes, self.axes(), to_grid=self.grid()).unsqueeze(0)
+                post = self.grid().transform(self.axes(), axes, to_grid=grid).unsqueeze(0)
+                data = hmm(post.to(data), hmm(data, pre.to(data)))
             data = U.affine_flow(data, grid)
         # Non-rigid deformation tensor as displacement field with shape (N, D, ..., X)
         else:
